@@ -33,6 +33,10 @@ type MSess struct {
 	Subs      map[string]MSub
 	DiscVT    int64 // virtual ms of the disconnect (offline sessions)
 	Uncertain bool  // expiry may have struck: existence unknown until the next CONNACK
+	// SubsUnknown: a SUBSCRIBE or UNSUBSCRIBE of this session reached the broker and was never answered (the
+	// connection was lost first, e.g. behind a stalled write): the client cannot know whether it took effect, and
+	// for a persistent session neither can the model for as long as the session lives.
+	SubsUnknown bool
 	Origin    string // how the current connection got the session: fresh | resumed | takeover | takeover-racing-teardown
 	MaxPkt    uint32
 	RecvMax   uint32
@@ -62,6 +66,16 @@ type Model struct {
 	// applies a request in the window it is issued in; for such a connection it does not know the subscription set
 	// at every instant, and nothing is demanded of or denied to its session from then on.
 	Late map[int]bool
+}
+
+// reachedBroker reports whether the last byte of operation oi's packet was delivered to the broker.
+func (m *Model) reachedBroker(oi int) bool {
+	for _, e := range m.r.H.Evs {
+		if e.Kind == "in" && e.hasOp && e.Op == oi && e.Last {
+			return true
+		}
+	}
+	return false
 }
 
 // lateAck reports whether a packet of type typ with identifier pid was written to c after seq.
@@ -296,6 +310,9 @@ func (m *Model) Apply(w *Window) {
 			}
 			ack := m.ackFor(c, w, refcodec.SUBACK, op.Pkt.PacketID)
 			if ack == nil {
+				if !lateAck(c, refcodec.SUBACK, op.Pkt.PacketID, w.EndSeq) && m.reachedBroker(oi) {
+					s.SubsUnknown = true
+				}
 				continue
 			}
 			var subid uint32
@@ -324,6 +341,9 @@ func (m *Model) Apply(w *Window) {
 				continue
 			}
 			if m.ackFor(c, w, refcodec.UNSUBACK, op.Pkt.PacketID) == nil {
+				if !lateAck(c, refcodec.UNSUBACK, op.Pkt.PacketID, w.EndSeq) && m.reachedBroker(oi) {
+					s.SubsUnknown = true
+				}
 				continue
 			}
 			for _, f := range op.Pkt.Filters {
